@@ -382,6 +382,7 @@ func runTrial(in *trialInput) kit.Case {
 				map[string]interface{}{"name": "main", "image": "img", "args": []interface{}{"python train.py" + render(in.TplArgs)}}}}}}}}
 		e.Spec.TrialTemplate = tt
 	}
+	e0 := e.DeepCopy() // what the model is given: the experiment as it was before any call
 	a := &suggestionsv1beta1.TrialAssignment{Name: in.AsgName, Labels: kvMap(in.AsgLabels, in.AsgLabelsNil)}
 	for _, p := range in.AsgParams {
 		a.ParameterAssignments = append(a.ParameterAssignments, commonv1beta1.ParameterAssignment{Name: p.K, Value: p.V})
@@ -411,6 +412,17 @@ func runTrial(in *trialInput) kit.Case {
 
 	var t *trialsv1beta1.Trial
 	var err error
+	if in.Prev != nil {
+		// createTrials: "for _, trial := range trialAssignments { r.createTrialInstance(instance, &trial) }" on one instance
+		pa := &suggestionsv1beta1.TrialAssignment{Name: in.Prev.Name, Labels: kvMap(in.Prev.Labels, false)}
+		for _, p := range in.Prev.Params {
+			pa.ParameterAssignments = append(pa.ParameterAssignments, commonv1beta1.ParameterAssignment{Name: p.K, Value: p.V})
+		}
+		for _, i := range in.Prev.Rules {
+			pa.EarlyStoppingRules = append(pa.EarlyStoppingRules, rules[i])
+		}
+		kit.Recover(func() { _, _ = rec.GetTrialInstanceForVerif(e, pa) })
+	}
 	pan := kit.Recover(func() { t, err = rec.GetTrialInstanceForVerif(e, a) })
 
 	var impl string
@@ -452,14 +464,14 @@ func runTrial(in *trialInput) kit.Case {
 		tpl = fmt.Sprintf("(Some (TTemplate %s %s %s %s %s))", kit.Bool(in.Retain), optMap(kvMap(in.PPL, in.PPLNil)), nat(in.PCN), nat(in.Succ), nat(in.Fail))
 	}
 	objT := "None"
-	if e.Spec.Objective != nil {
-		objT = "(Some " + nat(js("objective:", e.Spec.Objective)) + ")"
+	if e0.Spec.Objective != nil {
+		objT = "(Some " + nat(js("objective:", e0.Spec.Objective)) + ")"
 	}
 	colT := "None"
-	if e.Spec.MetricsCollectorSpec != nil {
-		colT = "(Some " + nat(js("collector:", *e.Spec.MetricsCollectorSpec)) + ")"
+	if e0.Spec.MetricsCollectorSpec != nil {
+		colT = "(Some " + nat(js("collector:", *e0.Spec.MetricsCollectorSpec)) + ")"
 	}
-	expTerm := fmt.Sprintf("(Experiment %s %s %s %s %s %s %s %s)", nat(in.ExpName), nat(in.ExpNS), nat(in.ExpUID), nmap(e.Labels), objT, kit.Bool(in.EarlyStop), tpl, colT)
+	expTerm := fmt.Sprintf("(Experiment %s %s %s %s %s %s %s %s)", nat(in.ExpName), nat(in.ExpNS), nat(in.ExpUID), nmap(e0.Labels), objT, kit.Bool(in.EarlyStop), tpl, colT)
 	asgTerm := fmt.Sprintf("(Assignment %s %s %s %s)", nat(in.AsgName),
 		kit.ListOf(in.AsgParams, func(p kv) string { return kit.Pair(nat(p.K), nat(p.V)) }),
 		kit.ListOf(in.AsgRules, func(i int) string { return nat(js("rule:", rules[i])) }),
@@ -475,6 +487,10 @@ func runTrial(in *trialInput) kit.Case {
 		c.Tags = append(c.Tags, "trial:generator-fails")
 	default:
 		c.Tags = append(c.Tags, "trial:built")
+	}
+	if in.Prev != nil {
+		c.Tags = append(c.Tags, "trial:second-of-a-batch")
+		c.Sig += fmt.Sprint(*in.Prev)
 	}
 	return c
 }
